@@ -16,6 +16,7 @@ pub mod c14;
 pub mod c15;
 pub mod c16;
 pub mod c18;
+pub mod c19;
 pub mod history;
 
 pub struct Ctx {
@@ -62,6 +63,7 @@ pub fn dispatch(prop: &str, tier: Tier, seed: u64, only: Option<usize>, args: &[
         "C15" => c15::run(&ctx),
         "C16" => c16::run(&ctx),
         "C18" => c18::run(&ctx),
+        "C19" => c19::run(&ctx),
         _ => {
             eprintln!("unknown property {prop}");
             2
